@@ -172,9 +172,13 @@ def adaptive_model(elfi, tape, widths):
         nm = 's%d' % j
         sums.append(elfi.Summary(fn, sim, model=m, name=nm))
         obs[nm] = fn(AD_OBS)
-    elfi.AdaptiveDistance(*sums, model=m, name='d')
-    spec = {'nodes': [], 'params': ['t0'], 'sums': ['s%d' % j for j in range(len(widths))],
-            'disc': 'd', 'extras': [], 'mode': 'smooth', 'gains': gains}
+    # the distance may list the summaries in another order than they were created in; that
+    # order is the column order of scales and distances
+    order = tape.shuffle('distance_parent_order', list(range(len(widths))))
+    elfi.AdaptiveDistance(*[sums[j] for j in order], model=m, name='d')
+    spec = {'nodes': [], 'params': ['t0'], 'sums': ['s%d' % j for j in order],
+            'disc': 'd', 'extras': [], 'mode': 'smooth', 'gains': [gains[j] for j in order],
+            'widths': [widths[j] for j in order]}
     return spec, m, obs
 
 
@@ -185,6 +189,7 @@ def run_adhist(tape, out):
     try:
         widths = [tape.int('width', 1, 3) for _ in range(tape.int('n_sums', 1, 3))]
         spec, model, obs = adaptive_model(elfi, tape, widths)
+        widths = spec['widths']      # in the distance's parent order from here on
         node = model['d']
         v = np.concatenate([np.atleast_2d(obs[s]) for s in spec['sums']], axis=1)
         rounds = tape.int('rounds', 1, 4)
